@@ -92,6 +92,25 @@ def oracle(ctx, seeds=None):
                 res.fail(name + ':final-time', "time after step %r != t0+dt %r" % (tend, t0 + dt),
                          dict(cls=name, t0=t0, dt=dt, kind='times'))
                 break
+        # (1b) "for every right-hand side": a RHS object that writes into one preallocated buffer and returns it at every call
+        for k in range(ctx.n(3, 30)):
+            c = [float(x) for x in ctx.rng.uniform(-1, 1, 5)]
+            q0 = ctx.rng.uniform(-1, 1, 3); t0 = float(ctx.rng.uniform(0, 2)); dt = float(ctx.rng.uniform(0.05, 0.5))
+            def run2():
+                outs = []
+                for buffered in (False, True):
+                    f = impl.field.fdata(FakeModel(), FakeMesh(3), [q0.copy()], t=t0)
+                    cls(FakeMesh(3), RecDisc(c, 3, buffered=buffered)).step(f, dt)
+                    outs.append(np.array(f.data[0], dtype=float).copy())
+                return outs
+            ok, out = impl.guarded(run2)
+            res.case((name, 'buffered-rhs', k))
+            if not ok:
+                res.fail(name + ':raised', out, dict(cls=name, kind='buffered-rhs')); break
+            if not np.array_equal(out[0], out[1]):
+                res.fail(name + ':aliased-stage-slopes', "one step with a right-hand side that reuses its output buffer differs from the step with fresh arrays by %g" %
+                         float(np.max(np.abs(out[0] - out[1]))), dict(cls=name, kind='buffered-rhs', c=c, q0=list(q0), t0=t0, dt=dt))
+                break
         # (2) observed order on y' = -2 t y^2
         def order():
             errs = []
@@ -151,7 +170,7 @@ def oracle(ctx, seeds=None):
             c = [float(x) for x in ctx.rng.uniform(-1, 1, 5)]
             q0 = ctx.rng.uniform(-1, 1, 3); t0 = float(ctx.rng.uniform(0, 2)); dt = float(ctx.rng.uniform(0.05, 0.5))
             def run():
-                d = RecDisc(c, 3)
+                d = RecDisc(c, 3, buffered=bool(k % 2))      # odd cases: a right-hand side that reuses one output buffer
                 f = impl.field.fdata(FakeModel(), FakeMesh(3), [q0.copy()], t=t0)
                 cls(FakeMesh(3), d).step(f, dt)
                 def fe(t, y):
@@ -171,7 +190,7 @@ def oracle(ctx, seeds=None):
             a, b = out
             if np.max(np.abs(a - b)) > 1e-12 * (1 + np.max(np.abs(b))):
                 res.fail(name + ':ssp-form', "step differs from the Shu-Osher convex combination by %g" % np.max(np.abs(a - b)),
-                         dict(cls=name, kind='ssp', c=c, q0=list(q0), t0=t0, dt=dt))
+                         dict(cls=name, kind='ssp', c=c, q0=list(q0), t0=t0, dt=dt, buffered_rhs=bool(k % 2)))
                 break
     return res
 
